@@ -119,6 +119,7 @@ func histFiles(ext string) map[string]string {
 		"item" + ext:            "item {{ it.name }}/{{ it.qty }} {{ it }}",
 		"box" + ext:             "{{ {left: -shift, unit: \"px\"}.left }}|{{ [-shift, !flag, -1] }}|{{ {a: {b: -shift}}.a.b }}|@each(k in [1, 2]){{ {v: -k, w: !flag}.v }}@end|{{ {on: !flag}.on }}",
 		"ratio" + ext:           "{{ total / count }}",
+		"shapes" + ext:          "{{ [1, [2, [n]]] }}|{{ {a: {b: {c: n}}}.a.b.c }}|{{ \"abcdef\".at(n) }}|{{ \"x\".repeat(n) }}|{{ [1, 2, 3, 4].slice(n).len() }}|{{ 5.decimal(\".\", n) }}|{{ true.then(n, 0) }}|{{ false.then(0, s) }}|{{ \"a,b\".split(\",\").join(s) }}|{{ [s].contains(\"k\") ? 1 : 2 }}|{{ \"kz\".contains(s) }}|{{ (1 > 0) ? n : 0 }}|{{ -n }}|{{ !b }}|{{ [n, 0][0] }}|{{ {k: n, j: s}.k }}|{{ \"s\" + s }}|{{ 1 + n * 2 }}|{{ 1.5 * n.float() }}|{{ [[s, \"x\"], [n]][0][0] }}|{{ {list: [n, {deep: s}]}.list[1].deep }}|{{ \"%d\".len() + n }}|{{ [\"p\", \"q\", \"r\", \"s\"][n] }}|{{ \"abc\".truncate(n, s) }}|{{ [3, 1, 2].contains(n) }}|{{ n.str() + \"!\" }}|{{ b ? \"yes\" : \"no\" }}|{{ (b ? [1] : [1, 2]).len() }}|{{ [1, 2].append(n).len() }}|{{ [0].prepend(s)[0] }}|{{ n == 1 ? \"one\" : n == 3 ? \"three\" : \"many\" }}|@if(\"k\" == s)Y@elseif([3].contains(n))E@else N@end|@each(x in [1, n])<{{ x }}>@end|@for(i = 0; i < n; i++)({{ i }})@end|@each(x in [])@else{{ s }}@end|{{ v = [n, s] }}{{ v }}|{{ w = {k: n} }}{{ w.k }}",
 		"ruler" + ext:           "@use(\"~main\")@insert(\"title\", \"=\".repeat(width))@insert(\"body\", [\"w\", width.str()].join(\":\"))",
 		"badge" + ext:           "{{ \"admin,editor\".contains(role) ? \"staff\" : \"guest\" }}|{{ [role].contains(\"admin\") ? 1 : 2 }}|@if(\"admin\".contains(role))a@else b@end|{{ true.then(role, 0) }}|{{ role.len() > 5 ? \"long\" : \"short\" }}|{{ \"x\".repeat(role.len()) }}|{{ [1, 2, 3].slice(role.len() - 5).len() }}|@each(k in [1, 2]){{ \"ab\".contains(role.at(k)) ? \"y\" : \"n\" }}@end",
 		"numbers" + ext:         "{{ x.str() }}|{{ x }}|{{ (x * 1.0).str() }}|{{ (0.0 * x).str() }}|{{ [[n, n + 1], [0, 0]] }}|{{ [1, [n], \"s\"] }}|@each(k in [[n], [2]]){{ k }}@end|{{ {a: [n], b: {c: n}} }}|{{ [[]].len() + n }}|{{ [\"a\", [\"b\" + n.str()]] }}",
@@ -210,6 +211,9 @@ func histOps() []histOp {
 		{"String(args, back=3 muted=true)", str("args", func() map[string]any {
 			return map[string]any{"word": "stair", "back": 3, "shown": true, "muted": true, "n": -4}
 		})},
+		// one page with the data buried in literals, calls on literal receivers, conditions and loop headers of every shape
+		{"String(shapes, n=1 s=k b=true)", str("shapes", func() map[string]any { return map[string]any{"n": 1, "s": "k", "b": true} })},
+		{"String(shapes, n=3 s=z b=false)", str("shapes", func() map[string]any { return map[string]any{"n": 3, "s": "z", "b": false} })},
 		// literals whose values are prefix expressions over the data
 		{"String(box, shift=2)", str("box", func() map[string]any { return map[string]any{"shift": 2, "flag": true} })},
 		{"String(box, shift=5)", str("box", func() map[string]any { return map[string]any{"shift": 5, "flag": false} })},
